@@ -41,6 +41,7 @@ pub mod ctl {
     ///   "N"  notify         obj=condvar a=number of controlled waiters released
     ///   "S"  thread start
     ///   "J"  join_all
+    ///   "E"  thread exit (logged inside the thread's last step; not for thread 0)
     ///   "X"  abort (deadlock / step limit)   text=reason
     ///   anything else: harness events logged through `yield_event` / `note`
     #[derive(Clone, Debug)]
@@ -505,6 +506,7 @@ pub mod ctl {
                 Some(c) if c.active => c,
                 _ => return,
             };
+            c.log(me, "E", 0, 0, 0, String::new());
             c.th[me] = St::Finished;
             if let Err(r) = c.pick_next() {
                 abort(g, r);
